@@ -98,7 +98,7 @@ pub fn gen_plan(seed: u64, metas: &[Meta], corpus_len: usize) -> Plan {
     }
     let strategy = if r.chance(0.2) {
         // pile threads up inside one region (a hook site inside MLPG / GV / model lookup / vocoder)
-        Strategy::PileUp { site: *r.pick(&[1u32, 2, 3, 5, 13, 14, 15, 15, 16, 17, 17, 19, 21, 23, 23, 24, 24, 25, 26, 27]), count: nthreads.min(*r.pick(&[2usize, 3, 9, 12, 16])) }
+        Strategy::PileUp { site: *r.pick(&[1u32, 2, 3, 5, 13, 14, 15, 15, 16, 17, 17, 19, 21, 23, 23, 24, 24, 25, 26, 27]), count: nthreads.min(*r.pick(&[2usize, 3, 9, 12, 16])), mean_after: 3.0 }
     } else if r.chance(0.25) {
         Strategy::Pct { change_points: vec![] } // filled in once the total number of yield points is known
     } else {
@@ -282,6 +282,10 @@ pub fn run_plan(plan: &Plan, env: &mut Env, corpus: &Arc<Vec<String>>, forced: O
             cps.dedup();
             Strategy::Pct { change_points: cps }
         }
+        // keep the number of hand-overs per plan bounded (each costs a few microseconds of futex traffic):
+        // at most ~20 000 context switches however many yield points the plan has
+        Strategy::Random { mean } => Strategy::Random { mean: mean.max((est_total as f64 / 20_000.0).floor()).max(1.0) },
+        Strategy::PileUp { site, count, mean_after } => Strategy::PileUp { site: *site, count: *count, mean_after: mean_after.max((est_total as f64 / 20_000.0).floor()) },
         s => s.clone(),
     };
     out.strategy = strategy.clone();
@@ -445,8 +449,8 @@ impl Plan {
                     if let Some(m) = v.strip_prefix("random:") {
                         p.strategy = Strategy::Random { mean: m.parse().ok()? };
                     } else if let Some(c) = v.strip_prefix("pileup:") {
-                        let (a, b) = c.split_once(':')?;
-                        p.strategy = Strategy::PileUp { site: a.parse().ok()?, count: b.parse().ok()? };
+                        let mut it = c.split(':');
+                        p.strategy = Strategy::PileUp { site: it.next()?.parse().ok()?, count: it.next()?.parse().ok()?, mean_after: it.next().and_then(|x| x.parse().ok()).unwrap_or(3.0) };
                     } else if let Some(c) = v.strip_prefix("pct:") {
                         p.strategy = Strategy::Pct { change_points: if c.is_empty() { vec![] } else { c.split(',').map(|x| x.parse().ok()).collect::<Option<Vec<u64>>>()? } };
                     }
@@ -676,8 +680,8 @@ pub fn cmd_l2a(args: &crate::Args) -> i32 {
             let strategy = if let Some(m) = f[8].strip_prefix("random:") {
                 Strategy::Random { mean: m.parse().unwrap_or(1.0) }
             } else if let Some(c) = f[8].strip_prefix("pileup:") {
-                let (a, b) = c.split_once(':').unwrap_or(("0", "0"));
-                Strategy::PileUp { site: a.parse().unwrap_or(0), count: b.parse().unwrap_or(0) }
+                let mut it = c.split(':');
+                Strategy::PileUp { site: it.next().and_then(|x| x.parse().ok()).unwrap_or(0), count: it.next().and_then(|x| x.parse().ok()).unwrap_or(0), mean_after: it.next().and_then(|x| x.parse().ok()).unwrap_or(3.0) }
             } else {
                 Strategy::Pct { change_points: f[8].trim_start_matches("pct:").split(',').filter_map(|x| x.parse().ok()).collect() }
             };
